@@ -29,6 +29,9 @@ RULES = {
     "pending-constraints": [A("ULT(x, 5)"), {"s": 0, "op": "satisfiable", "extra": []}, A("x != 1"), P(), E("x", 20)],
     "after-branch": [A("ULT(x, 5)"), {"s": 0, "op": "branch"}, P(1), A("x != 1", 1), E("x", 20, 1), E("x", 20, 0), P(0), E("x", 20, 0)],
     "twice": [A("SLT(y, 0)"), P(), P(), E("y", 20)],
+    # nothing was checked before the round trip (SolverComposite remembers which children it still has to check)
+    "unchecked-before": [A("UGE(x, 8)"), A("ULT(x, 3)"), P(), {"s": 0, "op": "satisfiable", "extra": []}],
+    "unchecked-before-two-children": [A("y == 6"), A("UGE(x, 8)"), A("ULT(x, 3)"), P(), {"s": 0, "op": "satisfiable", "extra": []}, E("y", 5)],
 }
 
 
@@ -84,6 +87,53 @@ def cross_process_solvers(ctx, n):
                           "fails": [[len(prefix) + len(solvers) + k, kind + ":fresh-process", why]]})
             break
     return fails
+
+
+def cross_process_twin(ctx, n):
+    """SolverReplacement with user-level replacements, over the annotated variable `xa` (an AST whose hash is different in
+    every process): the original answers the suffix here, the restored tuple answers it in a fresh process"""
+    import re
+    uni = L.Universe()
+    w = {"add": 24, "satisfiable": 8, "eval": 14, "batch_eval": 5, "min": 8, "max": 8, "solution": 8, "simplify": 3, "downsize": 4, "branch": 4}
+    sub = lambda t: re.sub(r"\bx\b", "xa", t)  # noqa: E731
+    bad = []
+    for i in range(n):
+        cls = ("SolverReplacement", "SolverReplacement:noauto")[i % 2]
+        hist = []
+        for d in L.gen_history(ctx.rng, ctx.pick(14, 24), weights=w, replace=0.35):
+            d = dict(d)
+            for key in ("cs", "es", "extra"):
+                if key in d:
+                    d[key] = [sub(t) for t in d[key]]
+            if "e" in d:
+                d["e"] = sub(d["e"])
+            if "repl" in d:
+                d["repl"] = [sub(d["repl"][0]), d["repl"][1]]
+            if "n" in d:
+                d["n"] = 300
+            hist.append(d)
+        if i == 0:
+            hist = [{"s": 0, "op": "add", "cs": ["(xa) == 5"], "repl": ["xa", 5]}, {"s": 0, "op": "eval", "e": "xa + 1", "n": 300, "extra": []},
+                    {"s": 0, "op": "max", "e": "xa & 3", "signed": False, "extra": []}]
+            cut = 1
+        else:
+            cut = ctx.rng.randrange(1, max(2, len(hist) - 2))
+        solvers = [L.SOLVER_CLASSES[cls]()]
+        for d in hist[:cut]:
+            if d["s"] < len(solvers):
+                L.apply_op(uni, solvers, d)
+        blob = pickle.dumps(solvers, -1).hex()
+        mine = []
+        for d in hist[cut:]:
+            mine.append(["skip"] if d["s"] >= len(solvers) else L._norm_out(d, L.apply_op(uni, solvers, d)))
+        res = child({"mode": "twin", "blob": blob, "suffix": hist[cut:]}, ctx.rng.randrange(1, 2 ** 31))
+        ctx.count(len(hist))
+        ctx.distinct("xtwin:%d" % i)
+        for k, (a, b) in enumerate(zip(json.loads(json.dumps(mine)), res["outs"])):
+            if a != b:
+                bad.append({"cls": cls, "hist": hist, "cut": cut, "k": cut + k, "why": "original: %s, restored in a fresh process: %s" % (str(a)[:160], str(b)[:160])})
+                break
+    return bad
 
 
 def random_ast(uni, rng, depth=3):
@@ -146,7 +196,8 @@ def run(ctx):
     ctx.cov["rule"] = ("(a) rule-directed and random histories with in-place pickle round trips (weight 12/95) on Solver, SolverCacheless, SolverStrings, "
                        "SolverCompositeChild (model correspondence) and SolverComposite, SolverHybrid, SolverReplacement (oracle); (b) solver trees pickled "
                        "after a random prefix, suffix run and judged in a fresh interpreter with a random PYTHONHASHSEED; (c) random annotated expressions "
-                       "(depth <= 4): identity in-process, structure and value table equal in a fresh process")
+                       "(depth <= 4): identity in-process, structure and value table equal in a fresh process; (d) SolverReplacement histories with "
+                       "add_replacement(variable, constant): the restored solver tuple runs side by side with the original, answers compared")
     tie_ok = True
     try:
         write_if_changed(os.path.join(LEAN, "Claripy", "Gen", "SolverMro.lean"), ts.render(ts.translate()))
@@ -175,9 +226,27 @@ def run(ctx):
         xf = cross_process_solvers(ctx, ctx.pick(12, 120))
         ctx.cov["input_distribution"]["fresh-process-solvers"] = {"solver_trees": ctx.pick(12, 120)}
         expression_round_trips(ctx, ctx.pick(150, 2000), ctx.pick(2, 10))
+        for f in cross_process_twin(ctx, ctx.pick(6, 60))[:2]:
+            ctx.violation("C18/%s/%s/restored-differs:fresh-process" % (f["cls"], f["hist"][f["k"]]["op"]),
+                          "%s %s: %s" % (f["cls"], f["hist"][f["k"]], f["why"]),
+                          {"cls": f["cls"], "cfg": {"track": False, "reuse": False}, "history": f["hist"], "twin": "restored", "cut": f["cut"],
+                           "note": "the restored tuple lives in a fresh interpreter with another PYTHONHASHSEED; the in-process replay shows the calls"})
     except RuntimeError as e:
         ctx.tie_broken("fresh-process", str(e)[:400])
         xf = []
+    # user-level replacements of SolverReplacement have no brute-force reading: the restored tuple runs side by side with the
+    # original and every answer is compared
+    uni = L.Universe()
+    tw_ran = 0
+    for cls in ("SolverReplacement", "SolverReplacement:noauto"):
+        found, ran = L.twin_search(uni, ctx.rng, cls, "restored", ctx.pick(16, 200), ctx.pick(14, 30))
+        tw_ran += ran
+        ctx.count(ran)
+        for f in found[:2]:
+            k, kind, why = f["fails"][0]
+            ctx.violation("C18/%s/%s/%s" % (cls, f["hist"][k]["op"], kind), "%s %s: %s" % (cls, f["hist"][k], why),
+                          {"cls": cls, "cfg": f["cfg"], "history": f["hist"], "twin": "restored", "cut": f["cut"]})
+    ctx.cov["input_distribution"]["restored-vs-original(user replacements)"] = {"calls": tw_ran}
     if ctx.broken and not fails:
         m3 = SC.run_jobs(ctx, jobs_for(ctx, MODELLED + OTHERS, mult=2), workers, corr=False, chunk_size=30)
         SC.merge_cov(ctx, m3, "failing-input-search")
